@@ -646,8 +646,19 @@ func split(statements []*Statement) [][]*Statement {
 	for _, s := range statements {
 		ds.add(s.Subject.Value)
 		ds.add(s.Object.Value)
-		if isBlank(s.Subject.Value) && isBlank(s.Object.Value) {
-			ds.union(ds.find(s.Subject.Value), ds.find(s.Object.Value))
+		// A blank node naming the graph of a statement connects
+		// the statement to the other statements it appears in.
+		first := ""
+		for _, t := range []string{s.Subject.Value, s.Object.Value, s.Label.Value} {
+			if !isBlank(t) {
+				continue
+			}
+			ds.add(t)
+			if first == "" {
+				first = t
+				continue
+			}
+			ds.union(ds.find(first), ds.find(t))
 		}
 	}
 
@@ -663,6 +674,8 @@ func split(statements []*Statement) [][]*Statement {
 			t = s.Subject.Value
 		case isBlank(s.Object.Value):
 			t = s.Object.Value
+		case isBlank(s.Label.Value):
+			t = s.Label.Value
 		default:
 			ground = append(ground, s)
 			continue
